@@ -1029,6 +1029,13 @@ def _sub_iter(I, st, r):
     return It("rep", [TOP])
 
 
+def iter_count(I, st, depth, callee, args, body, ln):
+    it = _it(I, st, args[0])
+    if it.kind == "exact":
+        return len(it.items)
+    return USIZE_TOP
+
+
 def iter_chain(I, st, depth, callee, args, body, ln):
     a, b = args[0], args[1]
     if isinstance(a, It) and isinstance(b, It) and a.kind == "exact" and b.kind == "exact":
@@ -1415,6 +1422,7 @@ TABLE.update({
     "core::iter::traits::iterator::Iterator::flat_map": iter_flat_map,
     "core::iter::traits::iterator::Iterator::enumerate": iter_enumerate,
     "core::iter::traits::iterator::Iterator::chain": iter_chain,
+    "core::iter::traits::iterator::Iterator::count": iter_count,
     "core::iter::traits::iterator::Iterator::rev": iter_rev,
     "core::iter::traits::iterator::Iterator::for_each": iter_for_each,
     "core::iter::traits::iterator::Iterator::fold": iter_fold,
